@@ -11,12 +11,14 @@ import (
 	"fmt"
 	"go/ast"
 	"go/constant"
+	"go/token"
 	"go/types"
 	"sort"
 	"strings"
 
 	"golang.org/x/tools/go/packages"
 	"golang.org/x/tools/go/ssa"
+	"golang.org/x/tools/go/types/typeutil"
 )
 
 type pkgT = packages.Package
@@ -265,4 +267,134 @@ func ruleGlobalState(r *Report, s *S1, rule string) {
 		r.OK(rule, "no writes to package variables outside init", "", fmt.Sprintf("%d functions scanned; package variables read: %v", nFn, gl))
 	}
 	r.FloorMin(rule+": functions scanned", nFn, 300)
+}
+
+// ruleLoopCarried: the per-spec loop of the driver (a loop in package goag whose
+// body calls a Generator method) must not carry state from one spec to the next:
+// a variable declared outside the loop, assigned inside it and read in the body
+// before (or in) its first assignment makes the output for one directory depend
+// on the directories processed before it.
+func ruleLoopCarried(r *Report, s *S1, rule string) {
+	p := s.Pkgs[modPath]
+	if p == nil {
+		r.Undecided(rule, "goag", "", "package not loaded")
+		return
+	}
+	info := p.TypesInfo
+	nLoops := 0
+	for _, file := range p.Syntax {
+		for _, d := range file.Decls {
+			fd, ok := d.(*ast.FuncDecl)
+			if !ok || fd.Body == nil {
+				continue
+			}
+			ast.Inspect(fd.Body, func(n ast.Node) bool {
+				var body *ast.BlockStmt
+				switch x := n.(type) {
+				case *ast.ForStmt:
+					body = x.Body
+				case *ast.RangeStmt:
+					body = x.Body
+				default:
+					return true
+				}
+				callsGen := false
+				ast.Inspect(body, func(m ast.Node) bool {
+					if call, ok := m.(*ast.CallExpr); ok {
+						if fo, ok := typeutil.Callee(info, call).(*types.Func); ok {
+							if sig, ok := fo.Type().(*types.Signature); ok && sig.Recv() != nil {
+								t := sig.Recv().Type()
+								if pt, ok := t.(*types.Pointer); ok {
+									t = pt.Elem()
+								}
+								if nt, ok := t.(*types.Named); ok && nt.Obj().Name() == "Generator" && nt.Obj().Pkg() == p.Types {
+									callsGen = true
+								}
+							}
+						}
+					}
+					return true
+				})
+				if !callsGen {
+					return true
+				}
+				nLoops++
+				key := funcKey(p, fd) + ":per-spec loop"
+				// first assignment position and first read position per outer variable
+				firstAsg := map[types.Object]token.Pos{}
+				asgRhsEnd := map[types.Object]token.Pos{}
+				ast.Inspect(body, func(m ast.Node) bool {
+					switch a := m.(type) {
+					case *ast.AssignStmt:
+						if a.Tok == token.DEFINE {
+							return true
+						}
+						for _, l := range a.Lhs {
+							if o := identObj(info, l); o != nil && (o.Pos() < n.Pos() || o.Pos() > n.End()) {
+								if _, isVar := o.(*types.Var); isVar {
+									if _, seen := firstAsg[o]; !seen {
+										firstAsg[o] = a.Pos()
+										asgRhsEnd[o] = a.End()
+										if a.Tok != token.ASSIGN { // += etc. read the old value
+											asgRhsEnd[o] = token.NoPos
+										}
+									}
+								}
+							}
+						}
+					case *ast.IncDecStmt:
+						if o := identObj(info, a.X); o != nil && (o.Pos() < n.Pos() || o.Pos() > n.End()) {
+							if _, seen := firstAsg[o]; !seen {
+								firstAsg[o] = a.Pos()
+								asgRhsEnd[o] = token.NoPos
+							}
+						}
+					}
+					return true
+				})
+				var carried []string
+				for o, ap := range firstAsg {
+					bad := asgRhsEnd[o] == token.NoPos
+					ast.Inspect(body, func(m ast.Node) bool {
+						id, ok := m.(*ast.Ident)
+						if !ok || info.Uses[id] != o {
+							return true
+						}
+						// a read at or before the end of the first assignment statement, other than its own LHS
+						if id.Pos() < ap {
+							bad = true
+						} else if end := asgRhsEnd[o]; end != token.NoPos && id.Pos() < end {
+							// inside the first assignment: LHS occurrence is a write, any other is a read of the old value
+							isLHS := false
+							ast.Inspect(body, func(k ast.Node) bool {
+								if a, ok := k.(*ast.AssignStmt); ok && a.Pos() == ap {
+									for _, l := range a.Lhs {
+										if l == ast.Expr(id) {
+											isLHS = true
+										}
+									}
+								}
+								return true
+							})
+							if !isLHS {
+								bad = true
+							}
+						}
+						return true
+					})
+					if bad {
+						carried = append(carried, o.Name())
+					}
+				}
+				sort.Strings(carried)
+				if len(carried) > 0 {
+					r.Violation(rule, key, s.pos(n.Pos()), "variables "+strings.Join(carried, ", ")+" are declared outside the per-spec loop, assigned inside it and read before that assignment: their value is carried from one spec directory to the next, so the output for a directory depends on the directories processed before it")
+				} else {
+					r.OK(rule, key, s.pos(n.Pos()), fmt.Sprintf("%d outer variables assigned in the loop, none read before its assignment", len(firstAsg)))
+				}
+				return true
+			})
+		}
+	}
+	r.FloorMin(rule+": per-spec loops", nLoops, 1)
 }
